@@ -56,7 +56,70 @@ pub fn check_format(v: &Val, pic: &str) -> Result<(usize, &'static str), String>
     }
 }
 
+/// One compiled `Formatter` reused for a sequence of format / parse calls on values of
+/// different types (some of which must fail): every call must behave as it would on a fresh
+/// formatter. Steps: (action, raw-selector); action 0..=5 formats a value of that kind, 6..=11
+/// parses the most recent formatted text (or a fixed text) as kind action-6.
+pub fn check_reuse(pic: &str, steps: &[(u8, i128)]) -> Result<(), String> {
+    let toks = match tokenize(pic) {
+        Some(t) => t,
+        None => return Ok(()),
+    };
+    let fmt = guarded(|| Formatter::try_new(pic)).map_err(|p| format!("try_new({pic:?}): {p}"))?.map_err(|e| format!("picture {pic:?} rejected: {e:?}"))?;
+    let mut last_text = String::from("2021-12-31 23:59:59.5 PM Friday");
+    for (k, (action, raw)) in steps.iter().enumerate() {
+        let kind = KINDS[(*action % 6) as usize];
+        let ctx = |m: String| format!("step {k} of a history on one Formatter({pic:?}): {m}");
+        if *action < 6 {
+            let v = Val::new(kind, *raw);
+            let lv = ad::to_lib(&v).map_err(|e| ctx(format!("value rejected {e:?}")))?;
+            let mut s = String::new();
+            let r = guarded(|| match lv {
+                LibVal::Date(x) => fmt.format(x, &mut s),
+                LibVal::Time(x) => fmt.format(x, &mut s),
+                LibVal::Ts(x) => fmt.format(x, &mut s),
+                LibVal::Ora(x) => fmt.format(x, &mut s),
+                LibVal::YM(x) => fmt.format(x, &mut s),
+                LibVal::DT(x) => fmt.format(x, &mut s),
+            })
+            .map_err(|p| ctx(p))?;
+            match (render(&v, &toks), r) {
+                (Some(w), Ok(())) if w.matches(&s) => last_text = s,
+                (None, Err(_)) => {}
+                (w, r) => return Err(ctx(format!("formatting {} {raw} gave {r:?} / {s:?}, reference {:?}", kind.name(), w.map(|x| x.text)))),
+            }
+        } else {
+            let reused = guarded(|| match kind {
+                Kind::Date => fmt.parse::<_, sqldatetime::Date>(&last_text).map(|x| x.days() as i128),
+                Kind::Time => fmt.parse::<_, sqldatetime::Time>(&last_text).map(|x| x.usecs() as i128),
+                Kind::Ts => fmt.parse::<_, sqldatetime::Timestamp>(&last_text).map(|x| x.usecs() as i128),
+                Kind::Ora => fmt.parse::<_, sqldatetime::OracleDate>(&last_text).map(|x| x.usecs() as i128),
+                Kind::YM => fmt.parse::<_, sqldatetime::IntervalYM>(&last_text).map(|x| x.months() as i128),
+                Kind::DT => fmt.parse::<_, sqldatetime::IntervalDT>(&last_text).map(|x| x.usecs() as i128),
+            })
+            .map_err(|p| ctx(p))?;
+            let fresh = ad::parse_type(kind, &last_text, pic).map_err(|p| ctx(p))?.map(|v| v.raw);
+            let same = match (&reused, &fresh) {
+                (Ok(a), Ok(b)) => a == b,
+                (Err(_), Err(_)) => true,
+                _ => false,
+            };
+            if !same {
+                return Err(ctx(format!("parsing {last_text:?} as {} on the reused formatter gives {reused:?}, on a fresh one {fresh:?}", kind.name())));
+            }
+        }
+    }
+    Ok(())
+}
+
 pub fn eval(case: &Case) -> Verdict {
+    if case.kind == "reuse" {
+        let steps: Vec<(u8, i128)> = case.i.chunks(2).map(|c| (c[0] as u8, c[1])).collect();
+        return match check_reuse(&case.s[0], &steps) {
+            Ok(()) => Verdict::Pass,
+            Err(m) => Verdict::Fail(m),
+        };
+    }
     let r = match case.kind.as_str() {
         "format" => check_format(&Val::new(Kind::from_index(case.i[0] as usize), case.i[1]), &case.s[0]).map(|_| ()),
         k => Err(format!("unknown case kind {k}")),
@@ -342,6 +405,38 @@ pub fn run(ctx: &Ctx) -> (Stats, Report) {
         st.merge(s);
     }
     st.section("composite_pictures", &mut mark);
+
+    // F: histories on one compiled Formatter (format / parse calls of different types, some failing)
+    {
+        let pools_: Vec<Vec<Val>> = KINDS.iter().map(|k| pools::pool(*k, seed, 100)).collect();
+        let pref = &pools_;
+        let s = pt_run(
+            "C04/formatter-reuse",
+            seed,
+            (if ctx.thorough { 1_500_000 } else { 100_000 }) / THREADS as u32,
+            THREADS,
+            || (prop_oneof![2 => gen::picture(gen::menu(), 1, 10, false), 1 => gen::picture(gen::menu_for(Kind::Ts), 1, 14, false), 1 => gen::picture(gen::menu_for(Kind::DT), 1, 8, false)], proptest::collection::vec((0u8..12, any::<u32>()), 2..=10)),
+            |(toks, steps): &(Vec<gen::CTok>, Vec<(u8, u32)>), st: &mut Stats| {
+                let pic = gen::spell_all(toks);
+                let resolved: Vec<(u8, i128)> = steps.iter().map(|(a, vi)| (*a, pref[(*a % 6) as usize][*vi as usize % pref[(*a % 6) as usize].len()].raw)).collect();
+                st.evaluations += resolved.len() as u64;
+                check_reuse(&pic, &resolved)?;
+                st.class("formatter-reuse-history");
+                let flat: Vec<i128> = resolved.iter().flat_map(|s| [s.0 as i128, s.1]).collect();
+                st.fps.push(hash_bytes(hash_ints(0x4f, &flat), pic.as_bytes()));
+                if st.evaluations % 4999 < resolved.len() as u64 {
+                    st.sample(mix64(seed ^ st.evaluations), || json!({"picture": pic, "history": resolved.iter().map(|s| format!("{} {}", if s.0 < 6 { "format" } else { "parse-as" }, KINDS[(s.0 % 6) as usize].name())).collect::<Vec<_>>()}));
+                }
+                Ok(())
+            },
+            |(toks, steps): &(Vec<gen::CTok>, Vec<(u8, u32)>)| {
+                let flat: Vec<i128> = steps.iter().flat_map(|(a, vi)| [*a as i128, pref[(*a % 6) as usize][*vi as usize % pref[(*a % 6) as usize].len()].raw]).collect();
+                Case::new(P, "reuse", flat, vec![gen::spell_all(toks)])
+            },
+        );
+        st.merge(s);
+    }
+    st.section("formatter_reuse_histories", &mut mark);
 
     let rep = Report {
         rule: "E1 exhaustive: all 3,652,059 dates x every date token in every letter-case variant on Date (and a 1/97 date subset + both range ends x 3 times on Timestamp/OracleDate); all 86,400 seconds x every time/meridian token on Time, Timestamp (4 dates incl. pre-1970) and OracleDate; all 10^6 microseconds x FF, FF1..FF9 on Time, negative IntervalDT and Timestamp; every single-token spelling x boundary+seeded pool values of all six types (applicability matrix). E2: proptest-generated composite pictures of 0..=40 tokens (applicable menus, plus small pictures over the whole menu) x generated values, through Formatter::format and T::format+write!. Oracle: independent reference renderer on the reference tokenization, byte for byte (case-insensitive only where the statement leaves the case open); an inapplicable token must produce an error. Non-trivial = picture with at least one value-bearing token; distinct by (type, picture, value).".into(),
